@@ -70,15 +70,28 @@ def merge(inputs, outs, profile_tag=""):
 
 
 CHUNK = int(os.environ.get("VERIF_CHUNK", "30000"))
+CHUNK_BYTES = int(os.environ.get("VERIF_CHUNK_BYTES", "40000000"))
 
 
 def adjudicate(wd, recs, flags, name, timeout=3000):
     """TLC decides every record (in chunks of CHUNK records per TLC run); returns (verdict by id, trails, result)"""
-    if len(recs) <= CHUNK:
+    # chunks are bounded by record count AND by JSON size (records of arbitrary bytes do not run-length compress:
+    # a 160 MB chunk made TLC's JSON reader fail under 8 workers)
+    chunks, cur, size = [], [], 0
+    for r in recs:
+        n = len(json.dumps(r))
+        if cur and (len(cur) >= CHUNK or size + n > CHUNK_BYTES):
+            chunks.append(cur)
+            cur, size = [], 0
+        cur.append(r)
+        size += n
+    if cur:
+        chunks.append(cur)
+    if len(chunks) <= 1:
         return _adjudicate(wd, recs, flags, name, timeout)
     verdicts, trails, total = {}, collections.Counter(), None
-    for c in range(0, len(recs), CHUNK):
-        v, t, r = _adjudicate(wd, recs[c:c + CHUNK], flags, "%s-%d" % (name, c // CHUNK), timeout)
+    for ci, part in enumerate(chunks):
+        v, t, r = _adjudicate(wd, part, flags, "%s-%d" % (name, ci), timeout)
         verdicts.update(v)
         trails.update(t)
         if total is None:
